@@ -12,6 +12,24 @@ DIRECTED = [
 ]
 
 
+def population_worker(args):
+  """One batch of fresh healthy RSA keys through the entry point."""
+  idx, count, seed = args
+  import random
+  from pv import checks, gen, scen
+  try:
+    rng = random.Random('C07-pop-%d-%d' % (idx, seed))
+    paranoid, registry, entry = scen._registry('rsa', True)
+    batch = [gen.rsa_healthy(rng, 'p%d-%d' % (idx, j), rng.choice([2048, 2048, 3072])) for j in range(count)]
+    crit = gen.rsa_joint_crit(batch)
+    rec = checks.record_call('C07-population-%d' % idx, 'rsa', batch, lambda: entry([a.proto for a in batch]), None, crit)
+    rec['scenario'] = {'classes': 'healthy population', 'call': {'all': True, 'n': count}}
+    return rec, None
+  except Exception:  # pylint: disable=broad-except
+    import traceback
+    return None, traceback.format_exc()
+
+
 def run(ctx):
   ctx.trust('TLC 1.8', 'pv.gen: healthy = independent uniformly random primes / private keys / nonces from the seeded generator', 'pv.checks.project')
   ctx.assume('design false-positive rate <= 2^-37 per key: any observed accusation of a healthy artifact is reported as a violation, for any seed')
@@ -27,6 +45,29 @@ def run(ctx):
     recs = drive_C16.replay_and_validate(ctx, plans, 'C07', pre_annotate=False)
   finally:
     drive_C16.DIRECTED = saved
+  # a population of fresh healthy RSA keys (a false-positive rate of 1 in 64 is seen with probability > 99 %)
+  import multiprocessing as mp
+  nb, per = (16, 20) if ctx.quick else (100, 20)
+  with mp.get_context('fork').Pool(processes=15, maxtasksperchild=2) as pool:
+    res = list(pool.imap_unordered(population_worker, [(i, per, ctx.seed) for i in range(nb)], chunksize=1))
+  pop = []
+  for rec, err in res:
+    if err:
+      raise tlc.MachineryError('population worker crashed:\n%s' % err)
+    pop.append(rec)
+  if ctx.only_sid:
+    pop = [x for x in pop if x['sid'] == ctx.only_sid]
+  if pop:
+    c, fails, trs = tlc.validate_trace_parallel('ChecksTrace', 'ChecksTrace.cfg', pop, 'C07pop', jobs=8, timeout=3600)
+    ctx.validated += c
+    ctx.replayed += len(pop)
+    by = {x['sid']: x for x in pop}
+    ctx.trace_failures(fails, by, lambda rec, f: {'kind': 'rsa', 'population': True, 'ret': rec['ret'], 'raised': rec['raised'],
+                                                  'accused': [(a['id'], [e['name'] for e in a['after']['entries'] if e['result']],
+                                                               format(0, 'x')) for a in rec['arts'] if a['after']['weak']][:5]})
+    ctx.distinct.update(by)
+    recs = recs + pop
+  ctx.notes['healthy_rsa_population'] = nb * per
   healthy = sum(1 for x in recs for a in x['arts'] if a['cls'].startswith('healthy'))
   ctx.notes['healthy_artifact_checks'] = healthy
 
